@@ -42,6 +42,8 @@ SHAPES = [
     {'$d': [['k', {'$o': 'P', 'a': {'x': [1, [2]], 'y': {'$d': [['n', 1]]}}}]]},
     [{'$d': [['k', 1], ['m', [2, 3]]]}, [4, {'$d': [['n', [5]]]}]],
     {'$o': 'W', 'a': {'a': {'$o': 'W', 'a': {'a': [1, 2], 'b': {'$d': [['k', 1]]}}}, 'b': 3}},
+    # typed containers (their mutators re-apply the schema internally)
+    {'$d': [['k', {'$o': 'Typed', 'a': {'d': {'$d': [['k', 1], ['u1', 'a']]}, 'l': [1, 2], 'i': 3}}], ['n', [1]]]},
 ]
 
 
@@ -247,7 +249,11 @@ def execute(case):
                            law='forbidden-not-refused', changed=str(after != before), **sig)
     if after != before:
       return res.violate('refused write changed the tree or its flags: ' + desc, law='refused-but-changed', **sig)
-  elif must_refuse is False:
+  if (refused and must_refuse is not True and after != before
+      and name not in ('rebind_multi', 'rebind_fn', 'update', 'ior', 'extend', 'iadd', 'setslice', 'imul')):   # (batches may stop half-way)
+    # whether or not the refusal was required: a call that ends in WritePermissionError must not have changed anything
+    return res.violate('refused write changed the tree or its flags: ' + desc, law='refused-but-changed', required='no', **sig)
+  if must_refuse is False:
     if refused:
       return res.violate('write refused although the documented rule allows it (%s): %s' % (out.exc, desc),
                          law='over-protection', **sig)
